@@ -123,6 +123,21 @@ def extract():
         facts["nIndices"] = n_idx + 1
     if not m:
         facts["nIndices"] = None
+    # ---- syntax/token.rs: debug abbreviation window ---------------------------------------------
+    t = strip_comments(read("cstree/src/syntax/token.rs"))
+    wd = body_of(t, r"fn\s+write_debug\s*<")
+    thr = lo = hi = None
+    if wd:
+        m = re.search(r"text\.len\(\)\s*<\s*([0-9_]+)", wd)
+        if m:
+            thr = rust_int(m.group(1))
+        m = re.search(r"for\s+\w+\s+in\s+([0-9_]+)\s*\.\.\s*([0-9_]+)", wd)
+        if m:
+            lo, hi = rust_int(m.group(1)), rust_int(m.group(2))
+        m2 = re.search(r"for\s+\w+\s+in\s+([0-9_]+)\s*\.\.=\s*([0-9_]+)", wd)
+        if m2:
+            lo, hi = rust_int(m2.group(1)), rust_int(m2.group(2)) + 1
+    facts["debugAbbrevThreshold"], facts["debugWindowLo"], facts["debugWindowHi"] = thr, lo, hi
     return facts, notes
 
 
